@@ -32,12 +32,16 @@ pub mod driver {
         pub use crate::stream_models::session;
         pub use crate::stream_models::unilocal;
         pub use crate::stream_models::uniremote;
+        pub use crate::stream_models::biremote;
 
         #[path = "/repo/wtransport/src/driver/streams/connect.rs"]
         pub mod connect;
 
         #[path = "/repo/wtransport/src/driver/streams/settings.rs"]
         pub mod settings;
+
+        #[path = "/repo/wtransport/src/driver/streams/qpack.rs"]
+        pub mod qpack;
     }
 }
 
